@@ -621,6 +621,11 @@ def execute(history):
                         out.stats["probe:sample_from_prior_checked"] += 1
                         e2 = expected.to(got.dtype).expand(got.shape) if expected.numel() <= got.numel() else expected
                         scale = max(float(e2.abs().max()), 1e-30)
+                        # same scale rule as the read-back check: the transform works relative to the (finite) bounds
+                        for name2, owner2, raw2, pub2 in plist:
+                            if owner2 is pmod and local == pub2 + "_prior":
+                                c2 = constraint_of(owner2, raw2)
+                                scale = max(scale, *(float(b.abs().max()) for b in (c2.lower_bound, c2.upper_bound) if finite(b)))
                         # the setter works in the sample's precision (some priors draw float32 samples in a float64 module)
                         rt = max(rtol_for(got.dtype), rtol_for(expected.dtype)) * 10
                         if e2.shape != got.shape or not float((got - e2).abs().max()) <= rt * scale:
